@@ -410,7 +410,7 @@ def run(ctx):
     for h in range(n_hist):
         huge = (h == 1 and ctx.shard % 2 == 0) if ctx.tier == "quick" else (h % 10 == 1)
         # every shard sees every kind of alphabet at least once (h = 2..5), the rest is drawn
-        kind = {2: "pyin", 3: "python", 4: "string", 5: "mixed"}.get(h)
+        kind = {2: "pyin", 3: "python", 4: "string", 5: "mixed", 6: "python", 7: "python"}.get(h)
         atoms = _huge_alphabet(rnd) if huge else _alphabet(rnd, kind)
         # (every cold parse of the 1 000-value text costs seconds: short history, one permutation)
         if huge:
@@ -439,6 +439,19 @@ def run(ctx):
             ops += _history(rnd, small, rnd.randint(4, 8))
         else:
             ops = _history(rnd, atoms, rnd.randint(40, 120))
+            if kind == "python" or (kind is None and any("python_full_version" in a_ for a_ in atoms)):
+                # spelling twins of whole operations: the same bounds written `3.10` / `3.10.0` (equal versions, equal
+                # specifiers) merged to a NEW specifier, at random places of the history
+                var = rnd.choice(["python_full_version", "python_version"])
+                lo, hi = rnd.choice([("3.10", "3.11"), ("3.8", "3.9"), ("3.9", "3.10")])
+                twins = []
+                for z in ("", ".0"):
+                    twins += [["and", f'{var} >= "{lo}{z}"', f'{var} < "{hi}{z}"'], ["or", f'{var} < "{lo}{z}"', f'{var} >= "{hi}{z}"'],
+                              ["and", f'{var} >= "{lo}{z}"', f'{var} != "{lo}{z}"'], ["and", f'{var} <= "{hi}{z}"', f'{var} > "{lo}{z}"']]
+                rnd.shuffle(twins)
+                for t_ in twins:
+                    ops.insert(rnd.randrange(len(ops) + 1), t_)
+                ctx.shape("history:spelling-twin operations")
         ctx.c10_perms = 1 if huge else None
         if huge:
             ctx.shape("alphabet:huge-group")
